@@ -459,6 +459,33 @@ class Interp:
                         raise
                 else:
                     self.run(s.orelse)
+            elif isinstance(s, ast.With):
+                # context managers are objects of the rule (stand-ins with __enter__/__exit__) or of the pure standard library
+                entered = []
+                try:
+                    for item in s.items:
+                        cm = self.ev(item.context_expr)
+                        if not (hasattr(cm, "__enter__") and hasattr(cm, "__exit__")):
+                            raise AnalysisError(f"tabulation: with-statement over a value without __enter__/__exit__ at line {s.lineno}")
+                        v = cm.__enter__()
+                        entered.append(cm)
+                        if item.optional_vars is not None:
+                            self._bind(item.optional_vars, v)
+                    self.run(s.body)
+                except (_Raised, AnalysisError):
+                    import sys as _sys
+                    et, ev_, tb = _sys.exc_info()
+                    swallowed = False
+                    for cm in reversed(entered):
+                        if cm.__exit__(et, ev_, tb):
+                            swallowed = True
+                            et = ev_ = tb = None
+                    entered = []
+                    if not swallowed or isinstance(ev_, AnalysisError):
+                        raise
+                finally:
+                    for cm in reversed(entered):
+                        cm.__exit__(None, None, None)
             elif isinstance(s, (ast.Nonlocal, ast.Global)):
                 # a nested function sees a copy of the enclosing bindings: objects are shared (errors.append works), a
                 # rebinding would not reach the enclosing scope — refuse a function that rebinds such a name
